@@ -582,7 +582,7 @@ impl Disk
             _ => dir.entries[e as usize].file_type = fimg.fs_type[0],
         } 
         dir.entries[e as usize].name = string_to_file_name(name);
-        dir.entries[e as usize].sectors = [tslist_sectors as u8 + data_sectors as u8 ,0];
+        dir.entries[e as usize].sectors = u16::to_le_bytes((tslist_sectors + data_sectors) as u16);
         self.write_sector(&dir.to_bytes(), ts, 0)?;
 
         // write the data and TS list as we go
